@@ -1,19 +1,21 @@
-(* Lock-step validator for the PRODUCT Abs(mutex, conds) x scheduler machine (coq/Compose/ComposeModel.v).
+(* Lock-step validator for the PRODUCT of a blocking protocol model with the scheduler machine
+   (coq/Compose/GenericModel.v; instances in coq/Compose/Instances.v: Sync, barrier, join counter, uncond).
    Input blocks (ONE stream, in trace order, built from both projections of the same trace):
-     begin <nworkers> <nthreads> <nconds>
+     begin sync <nworkers> <nthreads> <nconds>  |  begin barrier <nworkers> <nthreads> <N>
+     begin jc <nworkers> <nthreads> <N>         |  begin uncond <nworkers> <nthreads>
      snap <cur_0> .. <cur_{W-1}> | <dq_0 base..top> | <dq_1> | ...           machine component must equal this
-     sync <w> call <t> <op> [arg]                                            CSync w t (ECall op)
-     sync <w> ret <t> <v>                                                    CSync w t (ERet v)
-     sync <w> tick <t> <m|c> <label> <val|-> <obs>                           CSync w t ETick / (ECbTick i), after comparing
-                                                                             label, hook value and the Sync words
-     move <w> <CreateCF c|CreatePF c|PopOwn|Steal v|TakeJoiner j|SaveCtx|FinishCtx|PutBase|PushTop x|EndCb|RunHand>   CMach w m
-     autopop <w>            CMach w PopOwn if the hand is empty and the own queue is not
-     stealfind <w> <x>      CMach w (Steal v) for the worker v whose queue base is x
+     sync <w> call <t> <op> [arg]                                            GSync w t (ECall op)
+     sync <w> ret <t> <v>                                                    GSync w t (ERet v)
+     sync <w> announce <t>                                                   GSync w t EAnnounce   (uncond)
+     sync <w> tick <t> <m|c> <label> [<val|-> <obs>]                         GSync w t ETick / ECbTick, after comparing the
+                                                                             label (Sync: also hook value and the Sync words)
+     move <w> <CreateCF c|CreatePF c|PopOwn|Steal v|TakeJoiner j|SaveCtx|FinishCtx|PutBase|PushTop x|EndCb|RunHand>   GMach w m
+     autopop <w>            GMach w PopOwn if the hand is empty and the own queue is not
+     stealfind <w> <x>      GMach w (Steal v) for the worker v whose queue base is x
      end
    Output per block: "ok <sync steps> <free moves> <snaps>" or "FAIL <line> <reason>". *)
-open SyncModel
 open MachineModel
-open ComposeModel
+open GenericModel
 let zs = Zio.z_of_string and sz = Zio.string_of_z
 let ni = Zio.nat_of_int and ino = Zio.int_of_nat
 let bit b k = if b then 1 lsl k else 0
@@ -21,91 +23,170 @@ let char_of_ascii = function Ascii.Ascii (a,b,c,d,e,f,g,h) ->
   Char.chr (bit a 0 + bit b 1 + bit c 2 + bit d 3 + bit e 4 + bit f 5 + bit g 6 + bit h 7)
 let rec str = function String.EmptyString -> "" | String.String (a, r) -> Stdlib.String.make 1 (char_of_ascii a) ^ str r
 let split l = Stdlib.List.filter (fun s -> s <> "") (Stdlib.String.split_on_char ' ' l)
-let parse_op = function
-  | ["lock"] -> Lock | ["trylock"] -> TryLock | ["timedlock"] -> TimedLock | ["unlock"] -> Unlock
-  | ["cwait"; c] -> CondWait (ni (int_of_string c)) | ["signal"; c] -> Signal (ni (int_of_string c))
-  | ["bcast"; c] -> Broadcast (ni (int_of_string c))
-  | l -> failwith ("bad op " ^ Stdlib.String.concat " " l)
-let qstr l = "[" ^ Stdlib.String.concat "," (Stdlib.List.map (fun n -> string_of_int (ino n)) l) ^ "]"
-let rec take k l = if k = 0 then ([], l) else match l with x :: r -> let (a, b) = take (k - 1) r in (x :: a, b) | [] -> failwith "short obs"
-let getq k l = let (a, b) = take k l in ("[" ^ Stdlib.String.concat "," a ^ "]", b)
-let nthq s c = try Stdlib.List.nth (cqs s) c with _ -> []
-let check_obs s obs =
-  match obs with
-  | "M" :: st :: k :: rest ->
-      let (q, _) = getq (int_of_string k) rest in
-      let ms = sz (mword s) and mqs = qstr (mq s) in
-      if st = ms && q = mqs then None else Some (Printf.sprintf "mutex words differ: impl state=%s q=%s model state=%s q=%s" st q ms mqs)
-  | "Q" :: c :: k :: rest ->
-      let (q, _) = getq (int_of_string k) rest in
-      let mqs = qstr (nthq s (int_of_string c)) in
-      if q = mqs then None else Some (Printf.sprintf "cond %s queue differs: impl %s model %s" c q mqs)
-  | "-" :: _ | [] -> None
-  | _ -> Some "unparsable obs"
 let mode_str = function Sched -> "-" | Run t -> "t" ^ string_of_int (ino t) | Cb t -> "cb:t" ^ string_of_int (ino t)
 let q_str q = Stdlib.String.concat " " (Stdlib.List.map (fun t -> "t" ^ string_of_int (ino t)) q)
 let mstate_str s =
   Stdlib.String.concat " " (Stdlib.List.map mode_str (cur s)) ^ " | " ^ Stdlib.String.concat " | " (Stdlib.List.map q_str (dq s))
 let canon l = Stdlib.String.concat " " (split l)
 let tnum x = int_of_string (Stdlib.String.sub x 1 (Stdlib.String.length x - 1))
-let () =
-  let st = ref (cinit (ni 0) (ni 0) (ni 0)) and ln = ref 0 and nsync = ref 0 and nfree = ref 0 and nsnap = ref 0 and failed = ref None in
+
+(* what the generic loop needs from an instance: the machine component, a free move, a protocol line *)
+type inst = {
+  machine : unit -> mstate;
+  free : int -> move -> bool;                       (* GMach w m; false = not enabled *)
+  proto : int -> string list -> string option;      (* "sync <w> ..." line (words after the worker); Some reason = failure *)
+}
+
+(* ---- Sync instance: full comparison of label, hook value and Sync words, callbacks mapped to list positions by worker ---- *)
+let sync_inst nw nt nc =
+  let open SyncModel in
+  let st = ref (Instances.SyncI.pinit (ni nw) (ni nt) (ni nc)) in
   let cbw : (int, int list) Hashtbl.t = Hashtbl.create 16 in
   let workers t = try Hashtbl.find cbw t with Not_found -> [] in
   let rec index x = function [] -> None | y :: r -> if x = y then Some 0 else (match index x r with Some i -> Some (i + 1) | None -> None) in
   let rec drop i = function [] -> [] | y :: r -> if i = 0 then r else y :: drop (i - 1) r in
+  let parse_op = function
+    | ["lock"] -> Lock | ["trylock"] -> TryLock | ["timedlock"] -> TimedLock | ["unlock"] -> Unlock
+    | ["cwait"; c] -> CondWait (ni (int_of_string c)) | ["signal"; c] -> Signal (ni (int_of_string c))
+    | ["bcast"; c] -> Broadcast (ni (int_of_string c))
+    | l -> failwith ("bad op " ^ Stdlib.String.concat " " l) in
+  let qstr l = "[" ^ Stdlib.String.concat "," (Stdlib.List.map (fun n -> string_of_int (ino n)) l) ^ "]" in
+  let rec take k l = if k = 0 then ([], l) else match l with x :: r -> let (a, b) = take (k - 1) r in (x :: a, b) | [] -> failwith "short obs" in
+  let getq k l = let (a, b) = take k l in ("[" ^ Stdlib.String.concat "," a ^ "]", b) in
+  let nthq s c = try Stdlib.List.nth (cqs s) c with _ -> [] in
+  let check_obs s obs =
+    match obs with
+    | "M" :: stt :: k :: rest ->
+        let (q, _) = getq (int_of_string k) rest in
+        let ms = sz (mword s) and mqs = qstr (mq s) in
+        if stt = ms && q = mqs then None else Some (Printf.sprintf "mutex words differ: impl state=%s q=%s model state=%s q=%s" stt q ms mqs)
+    | "Q" :: c :: k :: rest ->
+        let (q, _) = getq (int_of_string k) rest in
+        let mqs = qstr (nthq s (int_of_string c)) in
+        if q = mqs then None else Some (Printf.sprintf "cond %s queue differs: impl %s model %s" c q mqs)
+    | "-" :: _ | [] -> None
+    | _ -> Some "unparsable obs" in
+  let step w t e desc = match Instances.SyncI.pstep !st (GSync (ni w, ni t, e)) with
+    | Some s' -> st := s'; None
+    | None -> Some (Printf.sprintf "product step %s of t%d on w%d not enabled; machine: %s" desc t w (mstate_str (gm !st))) in
+  { machine = (fun () -> gm !st);
+    free = (fun w m -> match Instances.SyncI.pstep !st (GMach (ni w, m)) with Some s' -> st := s'; true | None -> false);
+    proto = (fun w words -> match words with
+      | "call" :: t :: o -> step w (int_of_string t) (ECall (parse_op o)) ("call " ^ Stdlib.String.concat " " o)
+      | "ret" :: t :: v :: _ -> step w (int_of_string t) (ERet (zs v)) ("ret " ^ v)
+      | "tick" :: t :: ctx :: lab :: v :: obs ->
+          let ti = int_of_string t in
+          let tn = ni ti and s = gp !st in
+          let slot =
+            if ctx <> "c" then Some None
+            else match index w (workers ti) with
+              | Some i -> Some (Some i)
+              | None ->
+                  let n = ino (ncbs s tn) and k = Stdlib.List.length (workers ti) in
+                  if n = k + 1 then (Hashtbl.replace cbw ti (workers ti @ [w]); Some (Some k)) else None in
+          (match slot with
+           | None -> Some (Printf.sprintf "t%s starts a callback on w%d (POINT %s) but the model has no new callback for it" t w lab)
+           | Some sl ->
+             let incb = (match sl with Some i -> Some (ni i) | None -> None) in
+             let ml = str (label s tn incb) in
+             if ml <> lab then Some (Printf.sprintf "t%s(%s) executes POINT %s but the model expects %s" t ctx lab (if ml = "" then "<no step>" else ml))
+             else match (match lval s tn incb with
+                         | Some mv when v <> "-" && sz mv <> v -> Some (Printf.sprintf "t%s POINT %s carries value %s, model expects %s" t lab v (sz mv))
+                         | _ -> None) with
+               | Some m -> Some m
+               | None ->
+                 match check_obs s obs with
+                 | Some m -> Some (Printf.sprintf "before t%s %s: %s" t lab m)
+                 | None ->
+                   let before = ino (ncbs s tn) in
+                   let r = step w ti (match sl with Some i -> ECbTick (ni i) | None -> ETick) lab in
+                   (if r = None then match sl with
+                      | Some i when ino (ncbs (gp !st) tn) < before -> Hashtbl.replace cbw ti (drop i (workers ti))
+                      | _ -> ());
+                   r)
+      | _ -> Some "unparsable sync line") }
+
+(* ---- single-callback instances: label compared, then the product step ---- *)
+let simple_inst ~(pstep : 'c -> 'e gev -> 'c option) ~(init : 'c) ~(gmc : 'c -> mstate)
+                ~(label : 'c -> int -> bool -> string) ~(call_ev : string list -> 'e) ~(ret_ev : string -> 'e)
+                ~(tick_ev : 'e) ~(cb_ev : 'e) ~(extra : string list -> 'e option) =
+  let st = ref init in
+  let step w t e desc = match pstep !st (GSync (ni w, ni t, e)) with
+    | Some s' -> st := s'; None
+    | None -> Some (Printf.sprintf "product step %s of t%d on w%d not enabled; machine: %s" desc t w (mstate_str (gmc !st))) in
+  { machine = (fun () -> gmc !st);
+    free = (fun w m -> match pstep !st (GMach (ni w, m)) with Some s' -> st := s'; true | None -> false);
+    proto = (fun w words -> match words with
+      | "call" :: t :: o -> step w (int_of_string t) (call_ev o) ("call " ^ Stdlib.String.concat " " o)
+      | "ret" :: t :: v :: _ -> step w (int_of_string t) (ret_ev v) ("ret " ^ v)
+      | "tick" :: t :: ctx :: lab :: _ ->
+          let ti = int_of_string t in
+          let ml = label !st ti (ctx = "c") in
+          if ml <> lab then Some (Printf.sprintf "t%s(%s) executes POINT %s but the model expects %s" t ctx lab (if ml = "" then "<no step>" else ml))
+          else step w ti (if ctx = "c" then cb_ev else tick_ev) lab
+      | kw :: t :: _ -> (match extra [kw] with
+                         | Some e -> step w (int_of_string t) e kw
+                         | None -> Some ("unparsable sync line: " ^ kw))
+      | _ -> Some "unparsable sync line") }
+
+let barrier_inst nw nt n =
+  let open BarrierModel in
+  simple_inst ~pstep:Instances.BarrierI.pstep ~init:(Instances.BarrierI.pinit (ni nw) (ni nt) (zs n)) ~gmc:gm
+    ~label:(fun c t b -> str (label (gp c) (ni t) b))
+    ~call_ev:(fun _ -> ECall) ~ret_ev:(fun v -> ERet (zs v)) ~tick_ev:ETick ~cb_ev:ECbTick ~extra:(fun _ -> None)
+
+let jc_inst nw nt n =
+  let open JcModel in
+  match init_state (zs n) (ni nt) with
+  | None -> failwith "join counter parameter outside the representable range"
+  | Some s0 ->
+  simple_inst ~pstep:Instances.JcI.pstep ~init:(Instances.JcI.pinit (ni nw) s0) ~gmc:gm
+    ~label:(fun c t b -> str (label (gp c) (ni t) b))
+    ~call_ev:(function ["wait"] -> ECall Wait | ["dec"] -> ECall Dec | l -> failwith ("bad op " ^ Stdlib.String.concat " " l))
+    ~ret_ev:(fun v -> ERet (zs v)) ~tick_ev:ETick ~cb_ev:ECbTick ~extra:(fun _ -> None)
+
+let uncond_inst nw nt =
+  let open UncondModel in
+  simple_inst ~pstep:Instances.UncondI.pstep ~init:(Instances.UncondI.pinit (ni nw) (ni nt)) ~gmc:gm
+    ~label:(fun c t b -> str (label (gp c) (ni t) b))
+    ~call_ev:(function ["wait"] -> ECall Wait | ["signal"] -> ECall Signal | l -> failwith ("bad op " ^ Stdlib.String.concat " " l))
+    ~ret_ev:(fun v -> ERet (zs v)) ~tick_ev:ETick ~cb_ev:ECbTick
+    ~extra:(function ["announce"] -> Some EAnnounce | _ -> None)
+
+let () =
+  let inst = ref None and ln = ref 0 and nsync = ref 0 and nfree = ref 0 and nsnap = ref 0 and failed = ref None in
   let fail msg = if !failed = None then failed := Some (Printf.sprintf "FAIL %d %s" !ln msg) in
-  let free w m desc = match cstep !st (CMach (ni w, m)) with
-    | Some s' -> st := s'; incr nfree
-    | None -> fail (Printf.sprintf "free move %s of w%d not enabled in the product; machine: %s" desc w (mstate_str (ma !st))) in
-  let sync w t e desc = match cstep !st (CSync (ni w, ni t, e)) with
-    | Some s' -> st := s'; incr nsync; true
-    | None -> fail (Printf.sprintf "product step %s of t%d on w%d not enabled; machine: %s" desc t w (mstate_str (ma !st))); false in
+  let get () = match !inst with Some i -> i | None -> failwith "no begin line" in
+  let free w m desc =
+    let i = get () in
+    if i.free w m then incr nfree
+    else fail (Printf.sprintf "free move %s of w%d not enabled in the product; machine: %s" desc w (mstate_str (i.machine ()))) in
   try while true do
     let l = input_line stdin in
     incr ln;
     (match split l with
-     | ["begin"; nw; nt; nc] ->
-         st := cinit (ni (int_of_string nw)) (ni (int_of_string nt)) (ni (int_of_string nc));
-         ln := 0; nsync := 0; nfree := 0; nsnap := 0; failed := None; Hashtbl.reset cbw
+     | "begin" :: kind :: rest ->
+         ln := 0; nsync := 0; nfree := 0; nsnap := 0; failed := None;
+         (try inst := Some (match kind, rest with
+            | "sync", [nw; nt; nc] -> sync_inst (int_of_string nw) (int_of_string nt) (int_of_string nc)
+            | "barrier", [nw; nt; n] -> barrier_inst (int_of_string nw) (int_of_string nt) n
+            | "jc", [nw; nt; n] -> jc_inst (int_of_string nw) (int_of_string nt) n
+            | "uncond", [nw; nt] -> uncond_inst (int_of_string nw) (int_of_string nt)
+            | _ -> failwith ("bad begin line: " ^ l))
+          with Failure m -> inst := Some (sync_inst 0 0 0); fail m)
      | ["end"] -> (match !failed with Some m -> print_endline m | None -> Printf.printf "ok %d %d %d\n" !nsync !nfree !nsnap)
      | _ when !failed <> None -> ()
      | "snap" :: rest ->
-         let obs = canon (Stdlib.String.concat " " rest) and mdl = canon (mstate_str (ma !st)) in
+         let obs = canon (Stdlib.String.concat " " rest) and mdl = canon (mstate_str ((get ()).machine ())) in
          incr nsnap;
          if obs <> mdl then fail (Printf.sprintf "machine component differs: impl [%s] model [%s]" obs mdl)
-     | "sync" :: w :: "call" :: t :: o ->
-         ignore (sync (int_of_string w) (int_of_string t) (ECall (parse_op o)) ("call " ^ Stdlib.String.concat " " o))
-     | "sync" :: w :: "ret" :: t :: v :: _ ->
-         ignore (sync (int_of_string w) (int_of_string t) (ERet (zs v)) ("ret " ^ v))
-     | "sync" :: wk :: "tick" :: t :: ctx :: lab :: v :: obs ->
-         let ti = int_of_string t and w = int_of_string wk in
-         let tn = ni ti and s = sy !st in
-         let slot =
-           if ctx <> "c" then Some None
-           else match index w (workers ti) with
-             | Some i -> Some (Some i)
-             | None ->
-                 let n = ino (ncbs s tn) and k = Stdlib.List.length (workers ti) in
-                 if n = k + 1 then (Hashtbl.replace cbw ti (workers ti @ [w]); Some (Some k)) else None in
-         (match slot with
-          | None -> fail (Printf.sprintf "t%s starts a callback on w%s (POINT %s) but the model has no new callback for it" t wk lab)
-          | Some sl ->
-            let incb = (match sl with Some i -> Some (ni i) | None -> None) in
-            let ml = str (label s tn incb) in
-            if ml <> lab then fail (Printf.sprintf "t%s(%s) executes POINT %s but the model expects %s" t ctx lab (if ml = "" then "<no step>" else ml))
-            else begin
-              (match lval s tn incb with
-               | Some mv when v <> "-" && sz mv <> v -> fail (Printf.sprintf "t%s POINT %s carries value %s, model expects %s" t lab v (sz mv))
-               | _ -> ());
-              (match check_obs s obs with Some m -> fail (Printf.sprintf "before t%s %s: %s" t lab m) | None -> ());
-              let before = ino (ncbs s tn) in
-              if sync w ti (match sl with Some i -> ECbTick (ni i) | None -> ETick) lab then
-                (match sl with Some i when ino (ncbs (sy !st) tn) < before -> Hashtbl.replace cbw ti (drop i (workers ti)) | _ -> ())
-            end)
+     | "sync" :: w :: words ->
+         (match (try (get ()).proto (int_of_string w) words with Failure m -> Some m) with
+          | None -> incr nsync
+          | Some m -> fail m)
      | ["autopop"; w] ->
          let w = int_of_string w in
-         let m = ma !st in
+         let m = (get ()).machine () in
          let h = (try Stdlib.List.nth (hand m) w with _ -> None) and q = (try Stdlib.List.nth (dq m) w with _ -> []) in
          if h = None && q <> [] then free w PopOwn "PopOwn"
      | ["stealfind"; w; x] ->
@@ -114,9 +195,9 @@ let () =
            | [] -> None
            | (y :: _) :: r when ino y = x && i <> w -> Some i
            | _ :: r -> find (i + 1) r in
-         (match find 0 (dq (ma !st)) with
+         (match find 0 (dq ((get ()).machine ())) with
           | Some v -> free w (Steal (ni v)) (Printf.sprintf "Steal from w%d" v)
-          | None -> fail (Printf.sprintf "w%d stole t%d but it is at the base of no run queue in the model: %s" w x (mstate_str (ma !st))))
+          | None -> fail (Printf.sprintf "w%d stole t%d but it is at the base of no run queue in the model: %s" w x (mstate_str ((get ()).machine ()))))
      | "move" :: w :: m ->
          let w = int_of_string w in
          let mv = (match m with
